@@ -5,7 +5,7 @@ import shutil
 
 import engines
 import hist
-from common import (Broken, Rng, VERIF, build_harness, build_lean, audit, grep_forbidden, hx)
+from common import (Broken, Rng, VERIF, build_harness, build_dirk, build_lean, audit, grep_forbidden, hx)
 from hist import TWO63, TWO64, DOM_ATT, DOM_PROP, DOM_EXIT, DOM_RANDAO
 
 TRUSTED = [
@@ -551,6 +551,20 @@ def c06(rep, tier, seed, wd, replay):
                 for j, pos in enumerate(poss):
                     st = pos.split(":")[0]
                     yield ("jiff %s %d" % (st, 1 if ":" in pos else 0), (i, j, op[:200]))
+                # the hashing step fails for a request whose domain (or generic data root) is not 32 bytes: no signature
+                def blen(x):
+                    return -1 if x in ("-",) else (0 if x == "." else len(x) // 2)
+                if f[0] in ("att", "prop", "sign"):
+                    reqs = [f[4].split(",")]
+                elif f[0] in ("atts", "msign"):
+                    reqs = [it.split(",")[1:] for it in f[4].split(";")]
+                else:
+                    reqs = []
+                for j, rq in enumerate(reqs):
+                    if j < len(poss) and rq:
+                        malformed = blen(rq[0]) != 32 or (f[0] in ("sign", "msign") and len(rq) > 1 and blen(rq[1]) != 32)
+                        if malformed:
+                            yield ("jfault %d" % (1 if ":" in poss[j] else 0), (i, j, op[:200]))
                 # positions with a failing step on their path must not carry a signature
                 fl = f[5] if f[0] in ("att", "prop", "sign") else (f[3] if f[0] in ("atts", "msign") else "-")
                 toks = [] if fl == "-" else fl.split(",")
@@ -896,8 +910,45 @@ def c10(rep, tier, seed, wd, replay):
     for _ in range(n):
         r = rng.fork()
         scen.append(imp.gen_scenario(r, good_only=r.chance(0.4)))
+    # one very large import (more records than one storage transaction holds: badger's limit is ~104.8k entries with
+    # dirk's options), run beside the others on a memory-backed directory
+    import threading
+    bulk_res = {}
+
+    def bulk():
+        from common import run_impl, run_model, build_dirk
+        nb = 106000 if tier != "thorough" else 215000
+        base = "/dev/shm/verif-bulk-%d" % os.getpid() if os.path.isdir("/dev/shm") else os.path.join(wd, "bulk")
+        os.makedirs(base, exist_ok=True)
+        try:
+            lines_ = ["reset", "begin", "importbulk %d 1000 5 6" % nb]
+            bulk_res["impl"] = run_impl(dh, base, lines_, engine="imp", extra_args=[build_dirk(wd)], timeout=3000)
+            bulk_res["model"] = run_model(lines_)
+            bulk_res["lines"] = lines_
+        finally:
+            shutil.rmtree(base, ignore_errors=True)
+    if REPLAY is None or "importbulk" in " ".join(REPLAY.get("ops", [])):
+        build_dirk(wd)
+        th = threading.Thread(target=bulk)
+        th.start()
+    else:
+        th = None
     run_imp_scenarios(rep, dh, wd, scen)
     rep.cov["traces_validated_against_impl"] = len(scen)
+    if th is not None:
+        th.join()
+        (io, crashed, err), mo = bulk_res.get("impl", ([], True, "bulk run did not finish")), bulk_res.get("model", [])
+        rep.cov["bulk_import"] = io[-1] if io else "no output"
+        rep.count("bulk|" + " ".join(bulk_res.get("lines", [])), True)
+        if crashed or len(io) < 2:
+            rep.broken.append(("implementation-crash:imp-bulk", err[-1500:], False))
+        elif io[-1].strip() != mo[-1].strip():
+            f = dict(x.split("=") for x in io[-1].split()[2:])
+            if io[-1].startswith("bulk ok") and (int(f.get("below", 0)) or int(f.get("missing", 0))):
+                rep.violation("import-bulk-LOST", "after a successful import of %s keys, %s keys are absent from the store and %s hold values below the imported ones" % (f.get("n"), f.get("missing"), f.get("below")),
+                              {"config": ["begin"], "ops": bulk_res["lines"][2:], "impl": io})
+            else:
+                rep.broken.append(("correspondence:imp-bulk(model importFile vs dirk binary)", json.dumps({"ops": bulk_res["lines"], "impl": io, "model": mo}), False))
 
 
 def c08(rep, tier, seed, wd, replay):
